@@ -410,7 +410,7 @@ func (g *golite) translate(cfg *fnCfg) (string, error) {
 		if t.k == kFunc {
 			return "", fmt.Errorf("%s: function parameter %s has no callback configuration", cfg.goName, o.Name())
 		}
-		if isPtr(o.Type()) {
+		if isPtr(o.Type()) || cfg.inout[o.Name()] {
 			c.ptrs[o] = true
 			ptrBinders = append(ptrBinders, fmt.Sprintf("(%s : %s)", name, t.lean))
 		} else {
